@@ -169,12 +169,13 @@ def gen_resolve(loader, check, replay_on=True):
 
     # postfix_expr callback: builds the hybrid for exactly the written operator on exactly the operand
     HT = irkit.enum(loader, "Hybrid", "HybridType")
-    for tok, sym in (("INC_OP", "++"), ("DEC_OP", "--")):
+    from .common import T8
+    for tok, sym, vt in [(a, b, c_) for (a, b) in (("INC_OP", "++"), ("DEC_OP", "--")) for c_ in T8]:
         check.instances_declared += 1
 
-        def setup_p(it):
+        def setup_p(it, vt=vt):
             t = tkit.mk_transformer(it)
-            v = irkit.mk_var(it, "v", (True, 32))
+            v = irkit.mk_var(it, "v", vt)
             it.ctx.mark_pre(t)
             return {"t": t, "v": v}
         ex = explore(loader, setup_p, lambda it, st, tok=tok, sym=sym: it.call(tkit.method(it, st["t"], "postfix_expr"), [[st["v"], Token(tok, sym)]], {}))
@@ -182,7 +183,7 @@ def gen_resolve(loader, check, replay_on=True):
         if ex.paths:
             check.instances_generated += 1
         for p in ex.paths:
-            inst = f"v{sym}"
+            inst = f"v{sym} (v: {tname(vt)})"
             check.ob("postfix_expr#total", inst, p.ctx.pc, p.outcome == "return", detail="" if p.outcome == "return" else f"raises {p.value!r}")
             if p.outcome != "return":
                 continue
@@ -190,6 +191,12 @@ def gen_resolve(loader, check, replay_on=True):
             h = tmp.fields.get("hybrid_owner") if isinstance(tmp, Obj) else None
             ok = isinstance(h, Obj) and h.cls is irkit.C(loader, "PostfixIncDec") and h.fields["op_type"] == HT(sym) and h.fields["ops"][0] is p.state["v"]
             check.ob("postfix_expr#hybrid-is-the-written-operator-on-the-written-operand", inst, p.ctx.pc, bool(ok), detail=repr(h.fields.get("op_type") if isinstance(h, Obj) else h))
+            if ok:
+                # C: the value of v++ has the (unpromoted) type of v; the update happens at v's width
+                from spec import ir as _ir
+                th, tt = _ir.vt_of(h.fields["value_type"]), _ir.vt_of(tmp.fields["value_type"])
+                check.ob("postfix_expr#type", inst, p.ctx.pc, th == tuple(vt) and tt == tuple(vt), detail=f"operation typed {tname(th)}, placeholder typed {tname(tt)}, operand {tname(vt)}",
+                         replay=("c06.postfix_type", lambda mdl, sym=sym, vt=vt: {"sym": sym, "vt": list(vt)}) if replay_on else None)
 
     # nested: a hybrid whose operand is itself pending (f(i++)): the operand's effect is sequenced first
     check.instances_declared += 1
@@ -564,6 +571,17 @@ SOURCES = {
     "call": ("{ RdV = clz32(RtV); }", lambda t: t.index("hex_clz32(") < t.index('VARL("ret_val")')),
     "stmt-expr": ("{ int32_t i = 0; RdV = ({ i = 5; i; }); }", None),
 }
+
+
+@replay.register("c06.postfix_type")
+def replay_postfix_type(a):
+    c = irkit.real_compiler()
+    s_, w = a["vt"]
+    ct = f"{'' if s_ else 'u'}int{w}_t"
+    txt = c.compile_c_stmt("{ %s v = 1; RdV = v%s; }" % (ct, a["sym"]))
+    m = re.search(r"(INC|DEC)\(VARL\(\"v\"\), (\d+)\)", txt)
+    bad = not m or int(m.group(2)) != w
+    return bad, f"{{ {ct} v = 1; RdV = v{a['sym']}; }} updates v with {m.group(0) if m else None} (v is {w} bit wide)"
 
 
 @replay.register("c06.source")
